@@ -1267,6 +1267,16 @@ class Explorer:
             self.stats.paths += 1
             if self.asserted:
                 self.stats.paths_asserting += 1
+                if self._n_path_samples < 2:
+                    # one concrete representative of the inputs covered by this path (a model of its path condition)
+                    self._n_path_samples += 1
+                    try:
+                        rep = self._current_inputs()
+                        if rep:
+                            self.samples.append(dict(kind="path", inputs_representative=_jsonable(rep), decisions=len(self.stack),
+                                                     path_condition_conjuncts=len(self.pc)))
+                    except BaseException:
+                        pass
         except PathAbort:
             self._armed = False
             self.stats.aborted += 1
@@ -1294,6 +1304,7 @@ class Explorer:
             signal.setitimer(signal.ITIMER_REAL, 0)
             signal.signal(signal.SIGALRM, old)
 
+    _n_path_samples = 0
     budget_key = "budget"
     max_budget_hits = 3
     budget_is_violation = False     # True for obligations whose subject is termination (k-d tree construction)
